@@ -51,15 +51,20 @@ fn gen_op(rng: &mut Rng) -> BOp {
             25..=26 => gen_call(rng, MClass::ModuleLevel),
             27 => gen_call(rng, MClass::Type),
             28..=30 => gen_call(rng, MClass::ContextDependent),
-            31..=33 => Some(BOp::SelectFunction(match rng.below(6) {
+            31..=33 => Some(BOp::SelectFunction(match rng.below(8) {
                 0 => None,
                 1 => Some(usize::MAX),
                 2 => Some(1_000_000),
+                // huge indices whose low 32 / 16 / 8 bits look like a small valid index
+                3 => Some(((1u64 << 32) + rng.below(3)) as usize),
+                4 => Some(((1u64 << rng.range(8, 63)) + rng.below(3)) as usize),
                 _ => Some(rng.below(4) as usize),
             })),
-            34..=36 => Some(BOp::SelectBlock(match rng.below(6) {
+            34..=36 => Some(BOp::SelectBlock(match rng.below(8) {
                 0 => None,
                 1 => Some(usize::MAX),
+                2 => Some(((1u64 << 32) + rng.below(3)) as usize),
+                3 => Some(((1u64 << rng.range(8, 63)) + rng.below(3)) as usize),
                 _ => Some(rng.below(4) as usize),
             })),
             37 => Some(BOp::PopInstruction),
@@ -144,6 +149,10 @@ pub fn judge_step(rep: &Report, step: usize, cov: &mut Cov) -> Option<Violation>
     // --- a call that returns an error leaves the instructions exactly as they were --------------
     if is_err && rep.pre != rep.post {
         return viol("error-atomic", label.clone(), step, format!("{} returned Err({}) but the module changed: {:?}", rep.what, rep.ret.err().unwrap_or("?"), d));
+    }
+    // ... and (title: "failed calls change nothing") does not move the selection either
+    if is_err && rep.pre_sel != rep.post_sel {
+        return viol("error-atomic-selection", label.clone(), step, format!("{} returned Err({}) but the selection went from {:?} to {:?}", rep.what, rep.ret.err().unwrap_or("?"), rep.pre_sel, rep.post_sel));
     }
     let expect_err = |must_fail: bool, why: &str| -> Option<Violation> {
         if must_fail && !is_err {
